@@ -4,6 +4,7 @@ from . import common  # noqa: F401
 from pyvc import externals_chem  # noqa: F401  assumed contracts of deepcopy / RDKit / networkx (needs the ufuncs of common)
 from . import bond  # noqa: F401
 from . import core  # noqa: F401
+from . import token  # noqa: F401
 from . import mol_gen  # noqa: F401
 from . import distribution  # noqa: F401
 from . import stochastic  # noqa: F401
